@@ -1785,7 +1785,7 @@ def lt(left: Any, right: Any) -> bool:
   # we detect such types to make `lt` to run faster.
   if isinstance(left, (int, float, bool, str)):
     return left < right
-  elif isinstance(left, list):
+  elif isinstance(left, (list, tuple)):
     min_len = min(len(left), len(right))
     for i in range(min_len):
       l, r = left[i], right[i]
